@@ -14,15 +14,22 @@ use std::rc::Rc;
 /// Events produced by user components during a public call; flushed before the call's own event.
 pub type Pending = Rc<RefCell<Vec<Value>>>;
 
+pub type Captured = Rc<RefCell<Vec<Vec<u8>>>>;
+
 pub struct LogChunk {
     id: u64,
     inner: Cursor<Vec<u8>>,
     log: Pending,
+    /// when set, the bytes of the chunk are handed over when it is dropped
+    capture: Option<Captured>,
 }
 
 impl Drop for LogChunk {
     fn drop(&mut self) {
         self.log.borrow_mut().push(json!({"ev": "Drop", "id": self.id}));
+        if let Some(c) = &self.capture {
+            c.borrow_mut().push(std::mem::take(self.inner.get_mut()));
+        }
     }
 }
 impl Read for LogChunk {
@@ -72,6 +79,7 @@ impl Seek for LogChunk {
 pub struct LogCreator {
     pub next: RefCell<u64>,
     pub log: Pending,
+    pub capture: Option<Captured>,
 }
 
 impl ChunkCreator for LogCreator {
@@ -88,7 +96,7 @@ impl ChunkCreator for LogCreator {
         let mut n = self.next.borrow_mut();
         *n += 1;
         self.log.borrow_mut().push(json!({"ev": "Create", "id": *n}));
-        Ok(LogChunk { id: *n, inner: Cursor::new(Vec::new()), log: self.log.clone() })
+        Ok(LogChunk { id: *n, inner: Cursor::new(Vec::new()), log: self.log.clone(), capture: self.capture.clone() })
     }
 }
 
@@ -301,7 +309,7 @@ pub fn run_logged(out: &mut TraceOut, cfg: &SCfg, inserts: &[Entry], ids: &[u32]
         };
         let run = || -> Result<OutEntries, String> {
             match cfg.creator {
-                0 => run_with(cfg, LogCreator { next: RefCell::new(0), log: pending.clone() }, inserts, on_insert),
+                0 => run_with(cfg, LogCreator { next: RefCell::new(0), log: pending.clone(), capture: None }, inserts, on_insert),
                 1 => run_with(cfg, CursorVec, inserts, on_insert),
                 _ => run_with(cfg, TempFileChunk, inserts, on_insert),
             }
@@ -524,7 +532,7 @@ pub fn scn_alloc(out: &mut TraceOut, r: &mut R, idx: u64, heavy: bool) {
             b.allow_realloc(cfg.realloc).max_nb_chunks(cfg.maxc).verif_budget(t, init);
             b.sort_algorithm(if cfg.stable { SortAlgorithm::Stable } else { SortAlgorithm::Unstable });
             b.chunk_compression_type(codec_of(cfg.chunk.codec)).index_levels(cfg.chunk.levels);
-            let mut sorter = b.chunk_creator(LogCreator { next: RefCell::new(0), log: pending.clone() }).build();
+            let mut sorter = b.chunk_creator(LogCreator { next: RefCell::new(0), log: pending.clone(), capture: None }).build();
             for (i, p) in plan.iter().enumerate() {
                 let (cap, elen, nb, _) = sorter.verif_accounting();
                 let free = cap.saturating_sub(elen + 16 * nb);
@@ -579,4 +587,67 @@ pub fn scn_alloc(out: &mut TraceOut, r: &mut R, idx: u64, heavy: bool) {
                   "double_free": end.double_free - before_all.double_free, "bad_magic": end.bad_magic - before_all.bad_magic,
                   "leaked_class": end.live_class - after_first.live_class,
                   "first_mismatch": [ma, mf]}));
+}
+
+/// C15 / C09 on the files the sorter itself writes: every chunk (freshly spilled or produced by
+/// a chunk merge) is captured when it is dropped, decoded independently and logged for TLC.
+pub fn scn_chunks(out: &mut TraceOut, r: &mut R, _idx: u64, heavy: bool) {
+    let chunk = Cfg {
+        codec: *pick(r, &[0u8, 0, 5, 3]),
+        level: 0,
+        block_size: *pick(r, &[0usize, 1024, 1500, 2048, 4096]),
+        interval: *pick(r, &[1usize, 3, 8]),
+        levels: *pick(r, &[0u8, 1, 2, 2, 3]),
+    };
+    let t = *pick(r, &[8192usize, 12000, 20000, 32768]);
+    let init = *pick(r, &[64usize, 1024, t]);
+    let maxc = *pick(r, &[1usize, 2, 2, 3, 5]);
+    let realloc = r.gen_bool(0.5);
+    let n = r.gen_range(200..if heavy { 4000 } else { 900 });
+    let long = r.gen_bool(0.5);
+    let nkeys = r.gen_range(20..400u32);
+    let inserts: Vec<Entry> = (0..n)
+        .map(|i| {
+            let k = r.gen_range(0..nkeys);
+            let key = if long { long_key(k) } else { k.to_be_bytes().to_vec() };
+            (key, stoken(i as u32 + 1, *pick(r, &[0usize, 8, 20, 60, 130, 300])))
+        })
+        .collect();
+    let captured: Captured = Rc::new(RefCell::new(Vec::new()));
+    let pending: Pending = Rc::new(RefCell::new(Vec::new()));
+    let res = catch_unwind(AssertUnwindSafe(|| -> Result<(), String> {
+        let rec = Recorder { mf: Mf::Concat, calls: RefCell::new(Vec::new()) };
+        let mut b = Sorter::builder(&rec);
+        b.allow_realloc(realloc).max_nb_chunks(maxc).verif_budget(t, init);
+        b.chunk_compression_type(codec_of(chunk.codec))
+            .block_size(chunk.block_size)
+            .index_key_interval(NonZeroUsize::new(chunk.interval).unwrap())
+            .index_levels(chunk.levels);
+        let mut sorter = b.chunk_creator(LogCreator { next: RefCell::new(0), log: pending.clone(), capture: Some(captured.clone()) }).build();
+        for (k, v) in &inserts {
+            sorter.insert(k, v).map_err(|e| e.to_string())?;
+            rec.calls.borrow_mut().clear();
+        }
+        let cursors = sorter.into_reader_cursors().map_err(|e| e.to_string())?;
+        drop(cursors);
+        Ok(())
+    }));
+    pending.borrow_mut().clear();
+    let dict = Dict::build(inserts.iter().map(|(k, _)| k.clone()));
+    out.ev(dict.event());
+    let ok = matches!(res, Ok(Ok(())));
+    out.ev(json!({"ev": "ChunkRun", "res": if ok { "ok" } else { "failed" }, "chunks": captured.borrow().len(),
+                  "cfg": chunk.json(), "t": t, "maxc": maxc}));
+    let empty = std::collections::HashMap::new();
+    for bytes in captured.borrow().iter() {
+        if bytes.len() < 22 {
+            out.ev(json!({"ev": "Chunk", "codec": chunk.codec, "levels": chunk.levels, "bs": chunk.block_size, "k": chunk.interval,
+                          "file": {"size": bytes.len(), "trailer": [], "blocks": [], "slack": 0, "error": "too short"}}));
+            continue;
+        }
+        let raw = crate::decode::decode(bytes, 22);
+        let kid = |k: &[u8]| -> i64 { dict.strs.binary_search_by(|x| x.as_slice().cmp(k)).map(|i| i as i64 + 1).unwrap_or(0) };
+        out.ev(json!({"ev": "Chunk", "codec": chunk.codec, "levels": chunk.levels, "bs": chunk.block_size, "k": chunk.interval,
+                      "file": crate::decode::to_json(&raw, &kid, &empty)}));
+    }
 }
